@@ -121,6 +121,19 @@ def callees_in(t):
            [x[1] for x in sub_terms(t) if isinstance(x, tuple) and x and x[0] == "fn"]
 
 
+def expand_helpers(fx, callees, depth=0):
+    """callee names with later-extracted helpers (facts.helpers) replaced by what those helpers call themselves (transitively)"""
+    out = []
+    for c in callees:
+        hs = [h for h in getattr(fx, "helpers", ()) if h == c or h.endswith("::" + c)]
+        if len(hs) == 1 and depth < 4 and hs[0] in fx.bodies:
+            inner = callees_in(summ(fx.bodies[hs[0]][0]["body"]))
+            out += expand_helpers(fx, inner, depth + 1)
+        else:
+            out.append(c)
+    return out
+
+
 def consts_in(t):
     return [x[1] for x in sub_terms(t) if isinstance(x, tuple) and len(x) == 2 and x[0] == "const"]
 
